@@ -1,6 +1,7 @@
 import Pyunicorn.Lemmas.Mpi
 import Pyunicorn.Lemmas.MpiProto
 import Pyunicorn.Lemmas.MpiChunk
+import Pyunicorn.Lemmas.MpiTerm
 import Pyunicorn.Model.MpiKernels
 import Pyunicorn.Generated.ArithC19
 import Pyunicorn.Generated.StructC19
@@ -1032,5 +1033,201 @@ example :
     assembleR 0 7 (st.got.map (·.2)) = chunkKernelRel idx body full 0 7 ∧
     chunkKernelRel idx body full 0 7 = [1, 102, 403, 904, 1605, 2506, 3607] := by
   decide
+
+end Pyunicorn.MpiChunk
+
+/-! ## Round 5 — termination: every schedule is finite work, every fair schedule completes
+
+Rounds 3 and 4 proved what a run returns *once `run()` has returned* and that no reachable
+state is a deadlock.  Missing was that runs do return.  `measure` (model) counts the work a
+state can still cause: the master's remaining calls (twice: a `submit_call` also puts a
+message into a channel), `terminate()` (`size + 1`) and the messages waiting in the channels
+master → slave.  Every executed step of every rank strictly decreases it — in every state,
+no invariant needed — so a schedule executes at most `2·|prog| + size + 1` of its entries;
+a schedule in which every rank gets its turn often enough (`fairBlock`s) ends in a state in
+which no rank can move, and such a state is a completed run (`no_deadlock`) in which every
+slave has left `serve()`. -/
+namespace Pyunicorn.MpiProto
+open Pyunicorn.Mpi (lookup)
+
+variable {α β : Type}
+
+/-- **every executed step strictly decreases the measure** — any state (reachable or not),
+any rank, both modes. -/
+theorem measure_decreases (f : α → β) (st st' : State α β) (c : Nat)
+    (h : step f st c = some st') : measure st' < measure st :=
+  measure_step_lt f st st' c h
+
+/-- **step bound**: under every schedule, for every number of ranks (single-process mode
+included) and every master program, at most `2·|prog| + size + 1` entries of the schedule
+are executed; more precisely executed steps + the measure of the state reached never
+exceed that number. -/
+theorem schedule_step_bound (f : α → β) (size : Nat) (prog : List (Op α)) (cs : List Nat) :
+    executed f (init (β := β) size prog) cs + measure (run f (init (β := β) size prog) cs) ≤
+      2 * prog.length + size + 1 := by
+  have := (executed_add_measure f cs (init (β := β) size prog)).2
+  rw [measure_init] at this
+  exact this
+
+/-- **every fair schedule completes** (`size ≥ 2`): if the schedule consists of at least
+`2·|prog| + size + 1` blocks each containing the master and every slave rank (in any order,
+with any repetitions and any further entries), then in the state reached no rank can move,
+`run()` has returned on the master or a call has raised, and in the first case every slave
+has left its `serve()` loop. -/
+theorem fair_schedule_completes (f : α → β) (size : Nat) (hsize : 2 ≤ size) (prog : List (Op α))
+    (bs : List (List Nat)) (hfair : ∀ b ∈ bs, fairBlock size b)
+    (hlen : 2 * prog.length + size + 1 ≤ bs.length) :
+    let st := run f (init (β := β) size prog) bs.flatten
+    quiescent f st ∧ (st.finished = true ∨ st.err.isSome = true) ∧
+    (st.finished = true → ∀ s, 1 ≤ s → s < size → st.alive s = false) := by
+  intro st
+  have hq : quiescent f st :=
+    fair_quiescent f bs (init (β := β) size prog) hfair (by rw [measure_init]; exact hlen)
+  have hinv := inv_runSched f prog bs.flatten _ (inv_init f size prog hsize)
+  have ht := tinv_run f prog bs.flatten _ (inv_init f size prog hsize) (tinv_init size prog)
+  refine ⟨hq, quiescent_done f prog st hinv hq, fun hfin s hs1 hs2 => ?_⟩
+  have hsz : st.size = size := size_run f _ _
+  exact quiescent_slaves_stopped f st ht hq hfin s hs1 (by rw [hsz]; exact hs2)
+
+/-- the same in the single-process mode (`size < 2`, `mpi.available == False`) -/
+theorem fair_schedule_completes_serial (f : α → β) (size : Nat) (hsize : size < 2)
+    (prog : List (Op α)) (bs : List (List Nat)) (hfair : ∀ b ∈ bs, fairBlock size b)
+    (hlen : 2 * prog.length + size + 1 ≤ bs.length) :
+    let st := run f (init (β := β) size prog) bs.flatten
+    quiescent f st ∧ (st.finished = true ∨ st.err.isSome = true) := by
+  intro st
+  have hq : quiescent f st :=
+    fair_quiescent f bs (init (β := β) size prog) hfair (by rw [measure_init]; exact hlen)
+  exact ⟨hq, quiescent_done_serial f prog st
+    (sinv_runSched f prog bs.flatten _ (sinv_init f size prog hsize)) hq⟩
+
+/-- **in-order programs always return the specified values**: a program that collects in
+submission order (`inOrder`), run under any fair schedule with any number of slaves, any time
+estimates and `slave=` arguments, completes without raising and has returned exactly what
+the communicator-free specification prescribes. -/
+theorem inorder_fair_run_returns (f : α → β) (size : Nat) (hsize : 2 ≤ size) (prog : List (Op α))
+    (hio : inOrder [] prog = true) (bs : List (List Nat)) (hfair : ∀ b ∈ bs, fairBlock size b)
+    (hlen : 2 * prog.length + size + 1 ≤ bs.length) :
+    let st := run f (init (β := β) size prog) bs.flatten
+    st.finished = true ∧ st.err = none ∧ specRun f ([], []) prog = .ok (st.queue, st.got) := by
+  intro st
+  have herr : st.err = none := inorder_never_raises f size hsize prog hio bs.flatten
+  have hfin : st.finished = true := by
+    rcases (fair_schedule_completes f size hsize prog bs hfair hlen).2.1 with h | h
+    · exact h
+    · have : st.err.isSome = true := h
+      rw [herr] at this; cases this
+  exact ⟨hfin, herr, finished_run_eq_spec f size hsize prog bs.flatten herr hfin⟩
+
+/-- **the master loops of the three measures complete** under every fair schedule of at
+least `4·parts + size + 1` rounds: `run()` returns, nothing raises, `get_result(i)` has
+returned `f (payload i)` for `i = 0..parts-1`, and every slave has left `serve()`. -/
+theorem master_loop_completes (f : α → β) (size : Nat) (hsize : 2 ≤ size) (parts : Nat)
+    (payload : Nat → α) (est : Nat → Int) (bs : List (List Nat))
+    (hfair : ∀ b ∈ bs, fairBlock size b) (hlen : 4 * parts + size + 1 ≤ bs.length) :
+    let st := run f (init (β := β) size (masterProg parts payload est)) bs.flatten
+    st.finished = true ∧ st.err = none ∧
+    st.got = (List.range parts).map (fun i => (i, f (payload i))) ∧
+    (∀ s, 1 ≤ s → s < size → st.alive s = false) := by
+  intro st
+  obtain ⟨herr, hgot⟩ := master_loop_correct f size hsize parts payload est bs.flatten
+  have hl : 2 * (masterProg parts payload est).length + size + 1 ≤ bs.length := by
+    simp only [masterProg, List.length_append, List.length_map, List.length_range]
+    omega
+  obtain ⟨_, hdone, hstop⟩ := fair_schedule_completes f size hsize _ bs hfair hl
+  have hfin : st.finished = true := by
+    rcases hdone with h | h
+    · exact h
+    · have : st.err.isSome = true := h
+      rw [herr] at this; cases this
+  exact ⟨hfin, herr, hgot hfin, hstop hfin⟩
+
+/-- non-vacuity: 3 ranks, 2 chunks, 12 round-robin rounds -/
+example :
+    let bs := List.replicate 12 [0, 1, 2]
+    let st := run (fun x : Nat => x * x) (init (β := Nat) 3
+      (masterProg 2 (fun i => i + 5) (fun _ => 1))) bs.flatten
+    (∀ b ∈ bs, fairBlock 3 b) ∧ 4 * 2 + 3 + 1 ≤ bs.length ∧
+    st.finished = true ∧ st.got = [(0, 25), (1, 36)] ∧ st.alive 1 = false ∧ st.alive 2 = false ∧
+    measure st = 0 ∧ measure (init (β := Nat) 3 (masterProg 2 (fun i => i + 5) (fun _ => 1))) = 12
+    := by
+  refine ⟨?_, by decide, by decide, by decide, by decide, by decide, by decide, by decide⟩
+  intro b hb
+  have : b = [0, 1, 2] := List.eq_of_mem_replicate hb
+  subst this
+  exact ⟨by decide, fun c hc => by
+    have : c = 0 ∨ c = 1 ∨ c = 2 := by omega
+    rcases this with h | h | h <;> subst h <;> decide⟩
+
+end Pyunicorn.MpiProto
+
+namespace Pyunicorn.MpiChunk
+open Pyunicorn.Generated Pyunicorn.Mpi Pyunicorn.MpiProto
+
+variable {ρ β : Type}
+
+/-- **Newman betweenness, unconditional form**: under every fair schedule (at least
+`4·parts + size + 1` rounds in each of which the master and every slave occur) the
+distributed run *does* return, and what it assembles is the serial result. -/
+theorem newman_fair_run_eq_serial [Inhabited ρ] [DecidableEq β]
+    (body : (Nat → ρ) → (Nat → Arr ρ) → Nat → β) (full : Nat → Arr ρ) (zero : β)
+    (N size : Nat) (hsize : 2 ≤ size) (hN : 1 ≤ N) (est : Nat → Int) (bs : List (List Nat))
+    (hfair : ∀ b ∈ bs, fairBlock size b) :
+    let stepZ := ArithC19.newman_step N (ArithC19.newman_max_parts size N)
+    let partsZ := ArithC19.newman_parts N stepZ
+    let payload : Nat → Nat × Nat := fun i =>
+      ((ArithC19.newman_start i stepZ).toNat, (ArithC19.newman_end i stepZ N).toNat)
+    let f : Nat × Nat → Nat × List β := fun c =>
+      (c.1, chunkKernelRel newmanIdx body (distArgs newmanPass full c.1) c.1 c.2)
+    let st := run f (init (β := Nat × List β) size (masterProg partsZ.toNat payload est))
+      bs.flatten
+    4 * partsZ.toNat + size + 1 ≤ bs.length →
+    st.finished = true ∧ st.err = none ∧
+      assembleR zero N (st.got.map (·.2)) = chunkKernelRel newmanIdx body full 0 N := by
+  intro stepZ partsZ payload f st hlen
+  have h := newman_distributed_eq_serial body full zero N size hsize hN est bs.flatten
+  have hf := (master_loop_completes f size hsize partsZ.toNat payload est bs hfair hlen).1
+  exact ⟨hf, h.1, h.2 hf⟩
+
+/-- **n.s.i. Newman betweenness, unconditional form** -/
+theorem nsinewman_fair_run_eq_serial [Inhabited ρ] [DecidableEq β]
+    (body : (Nat → ρ) → (Nat → Arr ρ) → Nat → β) (full : Nat → Arr ρ) (zero : β)
+    (N size : Nat) (hsize : 2 ≤ size) (hN : 1 ≤ N) (est : Nat → Int) (bs : List (List Nat))
+    (hfair : ∀ b ∈ bs, fairBlock size b) :
+    let stepZ := ArithC19.nsinewman_step N (ArithC19.nsinewman_max_parts size N)
+    let partsZ := ArithC19.nsinewman_parts N stepZ
+    let payload : Nat → Nat × Nat := fun i =>
+      ((ArithC19.nsinewman_start i stepZ).toNat, (ArithC19.nsinewman_end i stepZ N).toNat)
+    let f : Nat × Nat → Nat × List β := fun c =>
+      (c.1, chunkKernelRel nsinewmanIdx body (distArgs nsinewmanPass full c.1) c.1 c.2)
+    let st := run f (init (β := Nat × List β) size (masterProg partsZ.toNat payload est))
+      bs.flatten
+    4 * partsZ.toNat + size + 1 ≤ bs.length →
+    st.finished = true ∧ st.err = none ∧
+      assembleR zero N (st.got.map (·.2)) = chunkKernelRel nsinewmanIdx body full 0 N := by
+  intro stepZ partsZ payload f st hlen
+  have h := nsinewman_distributed_eq_serial body full zero N size hsize hN est bs.flatten
+  have hf := (master_loop_completes f size hsize partsZ.toNat payload est bs hfair hlen).1
+  exact ⟨hf, h.1, h.2 hf⟩
+
+/-- **n.s.i. Arenas betweenness, unconditional form** (exact arithmetic) -/
+theorem arenas_fair_run_eq_serial [Inhabited ρ]
+    (body : (Nat → ρ) → (Nat → Arr ρ) → Nat → Nat → Int) (full : Nat → Arr ρ)
+    (N size : Nat) (hsize : 2 ≤ size) (hN : 1 ≤ N) (est : Nat → Int) (bs : List (List Nat))
+    (hfair : ∀ b ∈ bs, fairBlock size b) :
+    let stepZ := ArithC19.arenas_step N (ArithC19.arenas_max_parts size N)
+    let partsZ := ArithC19.arenas_parts N stepZ
+    let payload : Nat → Nat × Nat := fun i =>
+      ((ArithC19.arenas_start i stepZ).toNat, (ArithC19.arenas_end i stepZ N).toNat)
+    let f : Nat × Nat → List Int := fun c =>
+      addKernel arenasIdx body N (distArgs arenasPass full c.1) c.1 c.2
+    let st := run f (init (β := List Int) size (masterProg partsZ.toNat payload est)) bs.flatten
+    4 * partsZ.toNat + size + 1 ≤ bs.length →
+    st.finished = true ∧ st.err = none ∧
+      assembleAdd N (st.got.map (·.2)) = addKernel arenasIdx body N full 0 N := by
+  intro stepZ partsZ payload f st hlen
+  have h := arenas_distributed_eq_serial body full N size hsize hN est bs.flatten
+  have hf := (master_loop_completes f size hsize partsZ.toNat payload est bs hfair hlen).1
+  exact ⟨hf, h.1, h.2 hf⟩
 
 end Pyunicorn.MpiChunk
